@@ -120,7 +120,7 @@ def rebind_elsewhere(ctx, cfg, built, rc):
         return
     ctx.event('second-binding-accepted')
     b2 = I.Built()
-    b2.app, b2.world, b2.prefix, b2.pattern, b2.route = app2, built.world, '', '/r' + ''.join('/<%s>' % u for u in cfg['route'].get('url') or []), built.route
+    b2.app, b2.world, b2.prefix, b2.pattern, b2.route = app2, built.world, '', '/r' + ''.join(I.url_binding(cfg['route'], u) for u in cfg['route'].get('url') or []), built.route
     J.serve(ctx, cfg2, b2, plan2, rc, with_null=False)
 
 
